@@ -233,9 +233,9 @@ def run_check(prop, mod, tier, level, explanation, assumptions, trusted_base, x8
     for cfgname, msg in broken:
         brokenmsgs.append('build of configuration %s failed: %s' % (cfgname, msg[:800]))
     for rule, floor in floors.items():
-        got = per_rule.get(rule, {}).get(PROVED, 0)
+        got = per_rule.get(rule, {}).get(PROVED, 0) + per_rule.get(rule, {}).get(REFUTED, 0)
         if got < floor:
-            brokenmsgs.append('rule %s proved %d obligations, below the confirmed floor %d' % (rule, got, floor))
+            brokenmsgs.append('rule %s decided %d obligations, below the confirmed floor %d' % (rule, got, floor))
     for r in canary_bad:
         brokenmsgs.append('canary %s was not refuted (%s: %s)' % (r['id'], r['status'], r['detail'][:200]))
     for r in engine_errors[:5]:
